@@ -68,6 +68,12 @@ class Ctx:
         self._distinct = set()
         self._load_known_data()
         self.replay_dir = ROOT / "replays" / pid
+        if self.replay_dir.exists():
+            for f in self.replay_dir.glob("*.json"):   # witnesses of earlier runs are stale
+                try:
+                    f.unlink()
+                except OSError:
+                    pass
         self.quick = tier == "quick"
 
     # ---- known findings -------------------------------------------------
